@@ -36,7 +36,8 @@ Record CJ (s : state) : Prop := mkCJ {
            t = run_owner s /\ run_cont s = true /\ mid (runt s) = true;
   cj_ev : fresh (runt s) = true -> started_ev s = false;
   cj_closed : cont_closed s = true -> st_fsm s = Closed;
-  cj_flag : cont_closed s = false -> enabled_of (trace s) = Some (nonempty (cont_plugins s))
+  cj_flag : cont_closed s = false -> enabled_of (trace s) = Some (nonempty (cont_plugins s));
+  cj_off : cont_closed s = true -> enabled_of (trace s) = Some false
 }.
 
 (** before start(): nothing but the trace has changed *)
@@ -188,7 +189,7 @@ Lemma CJ_frame s s' :
   CJ s -> CJ s'.
 Proof.
   intros E Hcl Hp HC. destruct (cvw_fields _ _ E) as (E1 & E2 & E3 & E4 & E5 & E6 & E7 & E8).
-  destruct HC as [h1 h2 h3 h4 h5 h6 h7].
+  destruct HC as [h1 h2 h3 h4 h5 h6 h7 h8].
   constructor; rewrite ?E1, ?E2, ?E3, ?E4, ?E5, ?E6, ?E7, ?E8; auto.
 Qed.
 
@@ -237,10 +238,11 @@ Lemma CJ_holder_unreg s s' t :
   cont_closed s' = cont_closed s -> nl_started s' = nl_started s ->
   run_owner s' = run_owner s -> run_cont s' = run_cont s -> runt s' = runt s ->
   started_ev s' = started_ev s -> st_fsm s' = st_fsm s ->
-  (cont_closed s = false -> enabled_of (trace s') = Some (nonempty (cont_plugins s'))) -> CJ s'.
+  (cont_closed s = false -> enabled_of (trace s') = Some (nonempty (cont_plugins s'))) ->
+  (cont_closed s = true -> enabled_of (trace s') = enabled_of (trace s)) -> CJ s'.
 Proof.
-  intros HL HC Hh HR Ep E2 E3 E4 E5 E6 E7 E8 Hfl.
-  destruct HC as [h1 h2 h3 h4 h5 h6 h7].
+  intros HL HC Hh HR Ep E2 E3 E4 E5 E6 E7 E8 Hfl Hoff.
+  destruct HC as [h1 h2 h3 h4 h5 h6 h7 h8].
   constructor; rewrite ?E2, ?E3, ?E4, ?E5, ?E6, ?E7, ?E8; auto.
   - intros t' Hin. rewrite Ep in Hin. apply filter_In in Hin. destruct Hin as (Hin & Hpr).
     assert (Hn : t' <> t).
@@ -248,6 +250,7 @@ Proof.
     eapply pend_other; eauto. apply HRes_tstep; auto.
   - rewrite Ep. apply NoDup_filter. auto.
   - intros t' Hin. rewrite Ep in Hin. apply filter_In in Hin. destruct Hin as (Hin & _). auto.
+  - intros Hcl. rewrite (Hoff Hcl). auto.
 Qed.
 
 Lemma CJ_refuse s t c p :
@@ -259,7 +262,8 @@ Proof.
       * apply HRes_release_finish; reflexivity.
       * intros E. congruence.
     + eapply CJ_holder_unreg; eauto; try (cv_simpl; reflexivity).
-      apply HRes_release_finish; reflexivity.
+      * apply HRes_release_finish; reflexivity.
+      * intros E. congruence.
   - eapply CJ_holder_neutral; eauto.
     + apply HRes_release_finish; reflexivity.
     + unfold cvw. cv_simpl. reflexivity.
@@ -279,7 +283,7 @@ Proof.
   destruct (st_fsm s) eqn:Efs; try (eapply CJ_refuse; eauto).
   assert (Hr : runt s = None).
   { destruct HF as [_ HS]. eapply Scal_idle; eauto; rewrite Efs; discriminate. }
-  pose proof HC as [h1 h2 h3 h4 h5 h6 h7].
+  pose proof HC as [h1 h2 h3 h4 h5 h6 h7 h8].
   constructor; simpl; auto.
   - intros t' Hin. destruct (Nat.eq_dec t' t) as [->|Hn].
     + destruct (h2 _ Hin) as (c' & p' & Hf' & Hc' & _). rewrite Hf in Hf'. inversion Hf'; subst c' p'.
@@ -295,11 +299,14 @@ Lemma CJ_close_finish s t c :
   LkS s -> CJ s -> holder s = Some t -> st_fsm s = Closed -> ~ In (t, false) (cont_plugins s) ->
   CJ (finish_call (close_cont (release s)) t c ROk).
 Proof.
-  intros HL HC Hh Hfs Hni. pose proof HC as [h1 h2 h3 h4 h5 h6 h7].
+  intros HL HC Hh Hfs Hni. pose proof HC as [h1 h2 h3 h4 h5 h6 h7 h8].
   constructor; cv_simpl; auto; try discriminate.
-  intros t' Hin. destruct (Nat.eq_dec t' t) as [->|Hn]; [contradiction|].
-  eapply (pend_other s); eauto. apply HRes_tstep.
-  apply (HRes_release_finish s (close_cont (release s)) t c ROk); reflexivity.
+  - intros t' Hin. destruct (Nat.eq_dec t' t) as [->|Hn]; [contradiction|].
+    eapply (pend_other s); eauto. apply HRes_tstep.
+    apply (HRes_release_finish s (close_cont (release s)) t c ROk); reflexivity.
+  - intros _. unfold cont_off_events. rewrite rl_plugins.
+    destruct (cont_plugins s) eqn:Ep; simpl; auto.
+    destruct (cont_closed s) eqn:Ecl; auto.
 Qed.
 
 Ltac neutral_by HR :=
@@ -414,11 +421,12 @@ Proof. destruct l; reflexivity. Qed.
 
 Lemma CJ_register s t c p :
   CJ s -> find_task (tasks s) t = None -> is_cont c = true -> p = WaitLock1 \/ p = Granted1 ->
+  cont_closed s = false ->
   CJ (set_pc (set_cont_plugins (publish (set_trace s (EvCall t c :: trace s)) (PCont true))
                                (cont_plugins s ++ [(t, false)])) t c p).
 Proof.
-  intros HC Hnew Hc Hp. pose proof (no_task_no_pend _ _ HC Hnew) as Hni.
-  pose proof HC as [h1 h2 h3 h4 h5 h6 h7].
+  intros HC Hnew Hc Hp Hncl. pose proof (no_task_no_pend _ _ HC Hnew) as Hni.
+  pose proof HC as [h1 h2 h3 h4 h5 h6 h7 h8].
   constructor; simpl; auto.
   - intros t' Hin. apply in_app_or in Hin. destruct Hin as [Hin | [Hin | []]].
     + assert (t' <> t) by (intros ->; contradiction).
@@ -428,6 +436,7 @@ Proof.
   - apply NoDup_snoc; auto.
   - intros t' Hin. apply in_app_or in Hin. destruct Hin as [Hin | [Hin | []]]; auto. discriminate.
   - intros _. rewrite nonempty_snoc. reflexivity.
+  - intros E. congruence.
 Qed.
 
 Lemma CJ_finish_free s s1 t c r :
@@ -457,12 +466,12 @@ Proof.
     apply CJ_acquire; [exact HL | exact HF | exact Ef | reflexivity | apply (CJ_new_task s); auto | apply (CJ_new_task s); auto].
   - destruct (cont_closed s0) eqn:Ecl; [apply (CJ_finish_free s); auto|].
     apply CJ_acquire; [exact HL | exact HF | exact Ef | reflexivity
-                     | exact (CJ_register s t CRunCont WaitLock1 HC Ef eq_refl (or_introl eq_refl))
-                     | exact (CJ_register s t CRunCont Granted1 HC Ef eq_refl (or_intror eq_refl))].
+                     | exact (CJ_register s t CRunCont WaitLock1 HC Ef eq_refl (or_introl eq_refl) Ecl)
+                     | exact (CJ_register s t CRunCont Granted1 HC Ef eq_refl (or_intror eq_refl) Ecl)].
   - destruct (cont_closed s0) eqn:Ecl; [apply (CJ_finish_free s); auto|].
     apply CJ_acquire; [exact HL | exact HF | exact Ef | reflexivity
-                     | exact (CJ_register s t CRunContWait WaitLock1 HC Ef eq_refl (or_introl eq_refl))
-                     | exact (CJ_register s t CRunContWait Granted1 HC Ef eq_refl (or_intror eq_refl))].
+                     | exact (CJ_register s t CRunContWait WaitLock1 HC Ef eq_refl (or_introl eq_refl) Ecl)
+                     | exact (CJ_register s t CRunContWait Granted1 HC Ef eq_refl (or_intror eq_refl) Ecl)].
   - destruct (running_process s0); [apply (CJ_new_task s) | apply (CJ_finish_free s)]; auto.
   - destruct (send_command s0); [apply (CJ_new_task s) | apply (CJ_finish_free s)]; auto.
 Qed.
@@ -621,7 +630,7 @@ Proof.
   destruct (cfv_fields _ _ (cf_fields n s3)) as (E1 & E2 & E3 & E4 & E5 & E6 & E7 & E8).
   assert (Ep : cont_plugins (cont_finished s3 n) = filter unstarted (cont_plugins s)).
   { rewrite cf_plugins; [rewrite Fp; reflexivity|]. pose proof (filter_length_le (fun x : nat * bool => snd x) (cont_plugins s3)). lia. }
-  pose proof HC as [h1 h2 h3 h4 h5 h6 h7].
+  pose proof HC as [h1 h2 h3 h4 h5 h6 h7 h8].
   constructor; simpl; rewrite ?E1, ?E2, ?E3, ?E4, ?E8, ?Ep, ?F1, ?F2, ?F3, ?F4, ?F8; auto.
   - intros t' Hin. apply filter_In in Hin. destruct Hin as (Hin & _).
     destruct (h2 _ Hin) as (c & p & Hf & Hc & Hp). exists c, p. simpl. rewrite E8, F8.
@@ -631,6 +640,7 @@ Proof.
   - discriminate.
   - intros Hcl. rewrite (h6 Hcl) in Hfs. discriminate.
   - intros Hcl. rewrite <- Ep. apply cf_flag. rewrite Ft, Fp. auto.
+  - intros Hcl. rewrite (h6 Hcl) in Hfs. discriminate.
 Qed.
 
 Lemma CJ_run_finish s x :
@@ -650,7 +660,7 @@ Lemma CJ_run_step s s' :
   (fresh (runt s) = true -> fresh (runt s') = true) ->
   (fresh (runt s') = true -> started_ev s' = false) -> CJ s'.
 Proof.
-  intros HC E8 Ep E1 E2 E3 E4 E7 Et Hm Hf Hev. pose proof HC as [h1 h2 h3 h4 h5 h6 h7].
+  intros HC E8 Ep E1 E2 E3 E4 E7 Et Hm Hf Hev. pose proof HC as [h1 h2 h3 h4 h5 h6 h7 h8].
   constructor; rewrite ?E1, ?E2, ?E3, ?E4, ?E7, ?Ep, ?Et; auto.
   - intros t' Hin. destruct (h2 _ Hin) as (c & p & Hft & Hc & Hp). exists c, p. rewrite E8.
     repeat split; auto. unfold pend_pc. rewrite E3, E4.
@@ -691,7 +701,7 @@ Lemma CJ_arm s s3 :
   st_fsm s3 = st_fsm s -> enabled_of (trace s3) = enabled_of (trace s) ->
   CJ (set_runt (set_cont_plugins s3 (arm (run_cont s) (run_owner s) (cont_plugins s))) (Some RT_G_start)).
 Proof.
-  intros HC Hr E8 Ep E1 E2 E3 E4 E7 Et. pose proof HC as [h1 h2 h3 h4 h5 h6 h7].
+  intros HC Hr E8 Ep E1 E2 E3 E4 E7 Et. pose proof HC as [h1 h2 h3 h4 h5 h6 h7 h8].
   assert (Hall : forall x, In x (cont_plugins s) -> snd x = false).
   { intros [t b] Hin. destruct b; auto. destruct (h4 _ Hin) as (_ & _ & Hm). rewrite Hr in Hm. discriminate. }
   constructor; simpl; rewrite ?E1, ?E2, ?E3, ?E4, ?E7, ?Ep, ?Et, ?E8; auto.
@@ -708,7 +718,7 @@ Qed.
 
 Lemma CJ_step_run s : FI s -> CJ s -> CJ (do_step_run s).
 Proof.
-  intros HF HC. pose proof HF as [HP HS]. pose proof HC as [h1 h2 h3 h4 h5 h6 h7].
+  intros HF HC. pose proof HF as [HP HS]. pose proof HC as [h1 h2 h3 h4 h5 h6 h7 h8].
   unfold do_step_run. destruct (runt s) as [x|] eqn:Er; auto.
   assert (Hra : early x = true -> run_arg s <> None).
   { intros He. apply (sc_ra _ _ _ _ _ _ HS). right. eapply sc_early; eauto. }
@@ -815,7 +825,7 @@ Proof. intros (a & b & c & d & tr & -> & Hen). simpl. auto. Qed.
 Lemma CI_cont_inv s : CI s -> cont_inv s.
 Proof.
   unfold CI, cont_inv. destruct (nl_started s) eqn:Ens; intros H.
-  - destruct H as [h1 h2 h3 h4 h5 h6 h7]. split; [|split; [|split]]; auto. discriminate.
+  - destruct H as [h1 h2 h3 h4 h5 h6 h7 h8]. split; [|split; [|split]]; auto. discriminate.
   - destruct (PS_plugins _ H) as (E & _). rewrite E. split; [|split; [|split]]; auto; try (intros; contradiction). constructor.
 Qed.
 
@@ -869,6 +879,9 @@ Fixpoint rets_of (tr : list event) : list (nat * call * result) :=
   | _ :: k => rets_of k
   end.
 
+Lemma rets_off s tr : rets_of (cont_off_events s ++ tr) = rets_of tr.
+Proof. unfold cont_off_events. destruct (cont_plugins s); reflexivity. Qed.
+
 (** the state either has the returns [base], or one more; a refused continue
     request has its plugin removed and the flag re-published just before it returns *)
 Definition RSb (base : list (nat * call * result)) (s' : state) : Prop :=
@@ -876,7 +889,7 @@ Definition RSb (base : list (nat * call * result)) (s' : state) : Prop :=
   exists t c r tr1, trace s' = EvRet t c r :: tr1 /\ rets_of tr1 = base /\
     (r = RMachineError -> is_cont c = true ->
      ~ In (t, false) (cont_plugins s') /\
-     exists tr2, tr1 = EvPub (PCont (nonempty (cont_plugins s'))) :: tr2).
+     (cont_closed s' = false -> exists tr2, tr1 = EvPub (PCont (nonempty (cont_plugins s'))) :: tr2)).
 
 Lemma RSb_same base s' : rets_of (trace s') = base -> RSb base s'.
 Proof. left. assumption. Qed.
@@ -897,14 +910,15 @@ Qed.
 Lemma RSb_refuse base s t c : rets_of (trace s) = base -> RSb base (refuse s t c).
 Proof.
   intros E. unfold refuse. destruct (is_cont c) eqn:Ec.
-  - destruct (cont_closed (release s)).
-    + apply RSb_finish; [cv_simpl; auto | left; discriminate].
+  - destruct (cont_closed (release s)) eqn:Ecl.
+    + right. exists t, c, RMachineError. eexists. simpl. split; [reflexivity|]. cv_simpl.
+      split; auto. intros _ _. split; [apply unreg_not_in | rewrite rl_closed in Ecl; rewrite Ecl; discriminate].
     + right. exists t, c, RMachineError. eexists. simpl. split; [reflexivity|]. cv_simpl.
       split; auto. intros _ _. split; [apply unreg_not_in | eauto].
   - apply RSb_finish; [cv_simpl; auto | right; auto].
 Qed.
 
-Ltac rs := first [apply RSb_refuse | apply RSb_finish | apply RSb_same]; cv_simpl; auto; try (left; discriminate).
+Ltac rs := first [apply RSb_refuse | apply RSb_finish | apply RSb_same]; cv_simpl; rewrite ?rets_off; auto; try (left; discriminate).
 
 Lemma RSb_close_trigger base s t : rets_of (trace s) = base -> RSb base (close_trigger s t).
 Proof. intros E. unfold close_trigger. destruct (st_fsm s); try destruct (runt s); rs. Qed.
@@ -994,14 +1008,266 @@ Theorem refused_step s l t c :
   is_cont c = true ->
   rets_of (trace (step s l)) = (t, c, RMachineError) :: rets_of (trace s) ->
   ~ In (t, false) (cont_plugins (step s l)) /\
-  enabled_of (trace (step s l)) = Some (nonempty (cont_plugins (step s l))) /\
-  exists tr2, trace (step s l) =
-    EvRet t c RMachineError :: EvPub (PCont (nonempty (cont_plugins (step s l)))) :: tr2.
+  (cont_closed (step s l) = false ->
+   enabled_of (trace (step s l)) = Some (nonempty (cont_plugins (step s l))) /\
+   exists tr2, trace (step s l) =
+     EvRet t c RMachineError :: EvPub (PCont (nonempty (cont_plugins (step s l)))) :: tr2).
 Proof.
   intros Hc Hr. destruct (RSb_step s l) as [E | (t0 & c0 & r0 & tr1 & Et & E1 & H)].
   - rewrite E in Hr. exfalso. apply (f_equal (@length _)) in Hr. simpl in Hr. lia.
   - rewrite Et in Hr. simpl in Hr. rewrite E1 in Hr. inversion Hr; subst t0 c0 r0.
-    destruct (H eq_refl Hc) as (Hni & tr2 & ->). split; auto. rewrite Et. simpl. split; eauto.
+    destruct (H eq_refl Hc) as (Hni & Hop). split; auto. intros Hcl.
+    destruct (Hop Hcl) as (tr2 & ->). rewrite Et. simpl. split; eauto.
+Qed.
+
+(** ---- close() runs once: at most one CClose call is ever in flight, none after
+    the continuous item has been closed ---- *)
+Definition subc (ts0 ts : ttab) : Prop :=
+  forall t p, find_task ts t = Some (CClose, p) -> exists p0, find_task ts0 t = Some (CClose, p0).
+
+Lemma subc_refl ts : subc ts ts. Proof. intros t p H. eauto. Qed.
+
+Lemma subc_put ts0 ts t c p :
+  subc ts0 ts -> (c = CClose -> exists p0, find_task ts0 t = Some (CClose, p0)) ->
+  subc ts0 (put_task ts t (c, p)).
+Proof.
+  intros H Hc t' p' Hf. destruct (Nat.eq_dec t' t) as [->|Hn].
+  - rewrite find_put_eq in Hf. inversion Hf; subst. auto.
+  - rewrite find_put_neq in Hf by assumption. eauto.
+Qed.
+
+Lemma subc_remove ts0 ts t : subc ts0 ts -> subc ts0 (remove_task ts t).
+Proof.
+  intros H t' p' Hf. destruct (Nat.eq_dec t' t) as [->|Hn].
+  - rewrite find_remove_eq in Hf. discriminate.
+  - rewrite find_remove_neq in Hf by assumption. eauto.
+Qed.
+
+Lemma find_rel_tasks_call q ts t' c p' :
+  find_task (rel_tasks q ts) t' = Some (c, p') -> exists p, find_task ts t' = Some (c, p).
+Proof.
+  unfold rel_tasks. destruct q as [|t1 q]; [eauto|].
+  destruct (find_task ts t1) as [[c1 p1]|] eqn:E1; [|eauto].
+  destruct (Nat.eq_dec t' t1) as [->|Hn].
+  - rewrite find_put_eq. intros H. inversion H; subst. eauto.
+  - rewrite find_put_neq by assumption. eauto.
+Qed.
+
+Lemma subc_rel ts0 q ts : subc ts0 ts -> subc ts0 (rel_tasks q ts).
+Proof. intros H t' p' Hf. apply find_rel_tasks_call in Hf. destruct Hf as (p & Hf). eauto. Qed.
+
+Lemma subc_put_base ts t p : subc (put_task ts t (CClose, p)) ts.
+Proof.
+  intros t' p' Hf. destruct (Nat.eq_dec t' t) as [->|Hn].
+  - rewrite find_put_eq. eauto.
+  - rewrite find_put_neq by assumption. eauto.
+Qed.
+
+Definition Kt (ts : ttab) (nc cc : bool) : Prop :=
+  (forall t p, find_task ts t = Some (CClose, p) -> nc = true) /\
+  (forall t t' p p', find_task ts t = Some (CClose, p) -> find_task ts t' = Some (CClose, p') -> t = t') /\
+  (cc = true -> nc = true /\ forall t p, find_task ts t <> Some (CClose, p)).
+
+Definition K (s : state) : Prop := Kt (tasks s) (nl_closed s) (cont_closed s).
+
+(** what a step does to the CClose entries, to nl_closed and to cont_closed *)
+Definition KSb (ts0 : ttab) (nc0 cc0 : bool) (s' : state) : Prop :=
+  subc ts0 (tasks s') /\ nl_closed s' = nc0 /\
+  (cont_closed s' = cc0 \/
+   exists t p, find_task ts0 t = Some (CClose, p) /\ find_task (tasks s') t = None).
+
+Lemma Kt_step ts0 nc0 cc0 s' : Kt ts0 nc0 cc0 -> KSb ts0 nc0 cc0 s' -> K s'.
+Proof.
+  intros (k1 & k2 & k3) (Hs & En & Hcc). unfold K, Kt. rewrite En. repeat split.
+  - intros t p Hf. destruct (Hs _ _ Hf) as (p0 & Hf0). eauto.
+  - intros t t' p p' Hf Hf'. destruct (Hs _ _ Hf) as (p0 & Hf0). destruct (Hs _ _ Hf') as (p1 & Hf1). eauto.
+  - destruct Hcc as [E | (t & p & Hf & Hn)].
+    + rewrite E in H. apply k3; auto.
+    + eauto.
+  - intros t' p' Hf'. destruct (Hs _ _ Hf') as (p0 & Hf0).
+    destruct Hcc as [E | (t & p & Hf & Hn)].
+    + rewrite E in H. destruct (k3 H) as (_ & Hno). eapply Hno; eauto.
+    + assert (t' = t) by eauto. subst t'. congruence.
+Qed.
+
+Lemma Kt_new_close ts cc t p : Kt ts false cc -> Kt (put_task ts t (CClose, p)) true cc.
+Proof.
+  intros (k1 & k2 & k3).
+  assert (Hno : forall t' p', find_task ts t' <> Some (CClose, p')).
+  { intros t' p' Hf. specialize (k1 _ _ Hf). discriminate. }
+  split; [auto | split].
+  - intros t1 t2 p1 p2 H1 H2.
+    destruct (Nat.eq_dec t1 t) as [->|N1]; destruct (Nat.eq_dec t2 t) as [->|N2]; auto.
+    + rewrite find_put_neq in H2 by assumption. exfalso. eapply Hno; eauto.
+    + rewrite find_put_neq in H1 by assumption. exfalso. eapply Hno; eauto.
+    + rewrite find_put_neq in H1 by assumption. exfalso. eapply Hno; eauto.
+  - intros Hcc. destruct (k3 Hcc). discriminate.
+Qed.
+
+Lemma rl_nlc s : nl_closed (release s) = nl_closed s. Proof. rl_tac s. Qed.
+Lemma ar_nlc s o : nl_closed (apply_rest s o) = nl_closed s. Proof. ar_tac o. Qed.
+
+Ltac kv := cv_simpl; rewrite ?rl_nlc, ?ar_nlc, ?release_tasks; simpl.
+Ltac ksub :=
+  kv; repeat first [ assumption | apply subc_remove | apply subc_rel
+                   | (apply subc_put; [|first [assumption | intros _; assumption | discriminate]]) ].
+Ltac ksame := split; [ksub | split; [kv; auto | left; kv; auto]].
+
+Section KWalk.
+Variables (ts0 : ttab) (nc0 cc0 : bool).
+
+Lemma KSb_refuse s t c :
+  subc ts0 (tasks s) -> nl_closed s = nc0 -> cont_closed s = cc0 -> KSb ts0 nc0 cc0 (refuse s t c).
+Proof.
+  intros Hs En Ec. unfold refuse. destruct (is_cont c); [destruct (cont_closed (release s))|]; ksame.
+Qed.
+
+Lemma KSb_close_trigger s t :
+  subc ts0 (tasks s) -> (exists p0, find_task ts0 t = Some (CClose, p0)) ->
+  nl_closed s = nc0 -> cont_closed s = cc0 -> KSb ts0 nc0 cc0 (close_trigger s t).
+Proof.
+  intros Hs Hc En Ec. unfold close_trigger.
+  destruct (st_fsm s); try destruct (runt s); try (ksame; fail);
+    (split; [ksub | split; [kv; auto |]]; right; destruct Hc as (p0 & Hf0); exists t, p0; split; auto;
+     simpl; apply find_remove_eq).
+Qed.
+
+Lemma KSb_enter_close s t :
+  subc ts0 (tasks s) -> (exists p0, find_task ts0 t = Some (CClose, p0)) ->
+  nl_closed s = nc0 -> cont_closed s = cc0 -> KSb ts0 nc0 cc0 (enter_close s t).
+Proof.
+  intros Hs Hc En Ec. unfold enter_close.
+  destruct (st_fsm (publish s PEndAll)); try (apply KSb_close_trigger; auto; fail).
+  destruct (run_finished (publish s PEndAll)) as [[|]|]; try (apply KSb_close_trigger; auto; fail); ksame.
+Qed.
+
+Lemma KSb_enter s t c part2 :
+  subc ts0 (tasks s) -> (c = CClose -> exists p0, find_task ts0 t = Some (CClose, p0)) ->
+  nl_closed s = nc0 -> cont_closed s = cc0 -> KSb ts0 nc0 cc0 (enter s t c part2).
+Proof.
+  intros Hs Hc En Ec. unfold enter.
+  assert (H1 : forall c0, (c0 = CClose -> exists p0, find_task ts0 t = Some (CClose, p0)) ->
+                          KSb ts0 nc0 cc0 (enter_start s t c0)).
+  { intros c0 Hc0. unfold enter_start. destruct (st_fsm s); try (apply KSb_refuse; auto; fail). ksame. }
+  assert (H2 : forall c0, (c0 = CClose -> exists p0, find_task ts0 t = Some (CClose, p0)) ->
+                          KSb ts0 nc0 cc0 (enter_run s t c0)).
+  { intros c0 Hc0. unfold enter_run. destruct (st_fsm s); try (apply KSb_refuse; auto; fail). ksame. }
+  destruct c; auto; try (ksame; fail).
+  - unfold enter_reset. destruct (st_fsm s); try (apply KSb_refuse; auto; fail); destruct (o_stmt o); ksame.
+  - destruct part2; auto. apply KSb_enter_close; auto.
+Qed.
+
+Lemma KSb_acquire s t c part2 :
+  subc ts0 (tasks s) -> (c = CClose -> exists p0, find_task ts0 t = Some (CClose, p0)) ->
+  nl_closed s = nc0 -> cont_closed s = cc0 -> KSb ts0 nc0 cc0 (acquire s t c part2).
+Proof.
+  intros Hs Hc En Ec. unfold acquire. destruct (holder s); [ksame|]. destruct (lockq s); [|ksame].
+  apply KSb_enter; auto. ksub.
+Qed.
+End KWalk.
+
+Lemma KSb_do_call s t c : c <> CClose \/ nl_closed s = true ->
+  KSb (tasks s) (nl_closed s) (cont_closed s) (do_call s t c).
+Proof.
+  intros Hor. pose proof (subc_refl (tasks s)) as Hs0. unfold do_call.
+  destruct (find_task (tasks s) t); [ksame|].
+  destruct c; cbn [nl_started nl_closed cont_closed running_process send_command set_trace];
+    try (apply KSb_acquire; [exact Hs0 | discriminate | reflexivity | reflexivity]).
+  - destruct (nl_started s); [ksame | apply KSb_acquire; [exact Hs0 | discriminate | reflexivity | reflexivity]].
+  - destruct Hor as [Hn | Hn]; [congruence|]. rewrite Hn. ksame.
+  - destruct (cont_closed s) eqn:Ecl; [ksame | apply KSb_acquire; [exact Hs0 | discriminate | reflexivity | simpl; auto]].
+  - destruct (cont_closed s) eqn:Ecl; [ksame | apply KSb_acquire; [exact Hs0 | discriminate | reflexivity | simpl; auto]].
+  - destruct (running_process s); ksame.
+  - destruct (send_command s); ksame.
+Qed.
+
+Lemma K_call_close s t : K s -> find_task (tasks s) t = None -> nl_closed s = false -> K (do_call s t CClose).
+Proof.
+  intros HK Ef Hnc. unfold do_call. rewrite Ef. cbn [nl_closed set_trace]. rewrite Hnc.
+  unfold K in HK. rewrite Hnc in HK.
+  pose proof (Kt_new_close _ _ t WaitLock1 HK) as HK1.
+  cbn [nl_started set_nl_closed set_trace].
+  destruct (nl_started s);
+    (eapply Kt_step; [exact HK1 |];
+     apply KSb_acquire; [apply subc_put_base | intros _; eexists; apply find_put_eq | reflexivity | reflexivity]).
+Qed.
+
+Lemma KSb_do_step s t : LkS s -> KSb (tasks s) (nl_closed s) (cont_closed s) (do_step s t).
+Proof.
+  intros HL. pose proof (subc_refl (tasks s)) as Hs0.
+  unfold do_step. destruct (find_task (tasks s) t) as [[c p]|] eqn:Ef; [|ksame].
+  pose proof (lk_compat _ _ _ HL _ _ _ Ef) as Hc.
+  assert (Hc0 : c = CClose -> exists p0, find_task (tasks s) t = Some (CClose, p0)) by (intros ->; eauto).
+  destruct p; try (ksame; fail); try (apply KSb_enter; auto; fail).
+  - (* S_G3 *) destruct c; try (ksame; fail). apply KSb_acquire; auto; [ksub | kv; auto | kv; auto].
+  - destruct (started_ev s); ksame.
+  - destruct c; ksame.
+  - destruct c; ksame.
+  - destruct (st_fsm s); try destruct (runt s); ksame.
+  - destruct (runt s); ksame.
+  - destruct (run_finished s) as [[|]|]; try (ksame; fail).
+    destruct c; simpl in Hc; try discriminate. apply KSb_close_trigger; auto.
+  - destruct (runt s); try (ksame; fail). destruct c; simpl in Hc; try discriminate. ksame.
+  - (* C_G4 *) destruct c; simpl in Hc; try discriminate.
+    split; [ksub | split; [kv; auto |]]. right. exists t, C_G4. split; auto. simpl. apply find_remove_eq.
+  - destruct (run_finished s) as [[|]|]; ksame.
+Qed.
+
+Lemma cf_nlc n : forall s, nl_closed (cont_finished s n) = nl_closed s.
+Proof.
+  induction n as [|n IH]; intros s; simpl; auto.
+  destruct (filter _ (cont_plugins s)) as [|[t b] r]; auto. rewrite IH. reflexivity.
+Qed.
+
+Lemma run_finish_k s : tasks (run_finish s) = tasks s /\ nl_closed (run_finish s) = nl_closed s /\
+  cont_closed (run_finish s) = cont_closed s.
+Proof.
+  unfold run_finish. simpl. destruct (st_fsm s); simpl; auto.
+  match goal with |- context [cont_finished ?x ?n] =>
+    destruct (cfv_fields _ _ (cf_fields n x)) as (_ & E2 & _ & _ & _ & _ & _ & E8);
+    pose proof (cf_nlc n x) as E1 end.
+  rewrite E1, E2, E8. auto.
+Qed.
+
+Lemma step_run_k s : KSb (tasks s) (nl_closed s) (cont_closed s) (do_step_run s).
+Proof.
+  assert (H : tasks (do_step_run s) = tasks s /\ nl_closed (do_step_run s) = nl_closed s /\
+              cont_closed (do_step_run s) = cont_closed s).
+  { unfold do_step_run. destruct (runt s) as [[]|]; auto; try apply run_finish_k.
+    - destruct (run_arg s); auto. apply run_finish_k.
+    - simpl. destruct (run_arg s); auto. apply (run_finish_k (set_running_process s true)).
+    - destruct (run_call_pending s); auto. destruct (pending_exit s); auto. simpl.
+      destruct (run_arg s); auto.
+      match goal with |- context [run_finish ?x] => apply (run_finish_k x) end. }
+  destruct H as (E1 & E2 & E3). split; [rewrite E1; apply subc_refl | auto].
+Qed.
+
+Theorem K_step s l : LkS s -> K s -> K (step s l).
+Proof.
+  intros HL HK. destruct l as [t c | t | | o]; simpl.
+  - destruct (find_task (tasks s) t) eqn:Ef.
+    + unfold do_call. rewrite Ef. exact HK.
+    + assert (Hd : c <> CClose \/ nl_closed s = true \/ (c = CClose /\ nl_closed s = false)).
+      { destruct c; try (left; discriminate). destruct (nl_closed s); auto. }
+      destruct Hd as [Hd | [Hd | (-> & Hd)]].
+      * eapply Kt_step; [exact HK | apply KSb_do_call; auto].
+      * eapply Kt_step; [exact HK | apply KSb_do_call; auto].
+      * apply K_call_close; auto.
+  - eapply Kt_step; [exact HK | apply KSb_do_step; auto].
+  - eapply Kt_step; [exact HK | apply step_run_k].
+  - unfold do_child_exit. destruct (alive s); exact HK.
+Qed.
+
+Theorem K_reachable a b c d ls : K (run_labels (init_state a b c d) ls).
+Proof.
+  assert (H : LkS (run_labels (init_state a b c d) ls) /\ K (run_labels (init_state a b c d) ls)).
+  { unfold run_labels.
+    assert (HK0 : K (init_state a b c d)).
+    { unfold K, Kt. simpl. repeat split; intros; discriminate. }
+    generalize (LkS_init a b c d) HK0. generalize (init_state a b c d).
+    induction ls as [|l ls IH]; intros s HL HK; simpl; auto.
+    apply IH; [apply LkS_step | apply K_step]; auto. }
+  apply H.
 Qed.
 
 (** ---- after Continuous.close(): nothing is published on the flag any more ---- *)
@@ -1022,69 +1288,59 @@ Proof.
   rewrite rl_closed. destruct H as (E1 & E2). rewrite E2. split; cv_simpl; auto.
 Qed.
 
-Lemma Qb_close_trigger b s t : Qb b s -> Qb b (close_trigger s t).
-Proof. intros H. unfold close_trigger. destruct (st_fsm s); try destruct (runt s); qs. Qed.
-
-Lemma Qb_enter_close b s t : Qb b s -> Qb b (enter_close s t).
+Lemma Qb_enter b s t c part2 : c <> CClose -> Qb b s -> Qb b (enter s t c part2).
 Proof.
-  intros H. unfold enter_close.
-  assert (H1 : Qb b (publish s PEndAll)) by (destruct H; split; auto).
-  destruct (st_fsm (publish s PEndAll)); try (apply Qb_close_trigger; auto; fail).
-  destruct (run_finished (publish s PEndAll)) as [[|]|]; try (apply Qb_close_trigger; auto; fail); qs.
-Qed.
-
-Lemma Qb_enter b s t c part2 : Qb b s -> Qb b (enter s t c part2).
-Proof.
-  intros H. unfold enter.
+  intros Hnc H. unfold enter.
   assert (H1 : forall c0, Qb b (enter_start s t c0)).
   { intros c0. unfold enter_start. destruct (st_fsm s); try (apply Qb_refuse; auto; fail). qs. }
   assert (H2 : forall c0, Qb b (enter_run s t c0)).
   { intros c0. unfold enter_run. destruct (st_fsm s); try (apply Qb_refuse; auto; fail). qs. }
-  destruct c; auto.
-  - unfold enter_reset. destruct (st_fsm s); try (apply Qb_refuse; auto; fail); destruct (o_stmt o); qs.
-  - destruct part2; auto. apply Qb_enter_close; auto.
+  destruct c; auto; try congruence.
+  unfold enter_reset. destruct (st_fsm s); try (apply Qb_refuse; auto; fail); destruct (o_stmt o); qs.
 Qed.
 
-Lemma Qb_acquire b s t c part2 : Qb b s -> Qb b (acquire s t c part2).
+Lemma Qb_acquire b s t c part2 : c <> CClose -> Qb b s -> Qb b (acquire s t c part2).
 Proof.
-  intros H. unfold acquire. destruct (holder s); [qs|]. destruct (lockq s); [|qs].
-  apply Qb_enter. destruct H. split; auto.
+  intros Hnc H. unfold acquire. destruct (holder s); [qs|]. destruct (lockq s); [|qs].
+  apply Qb_enter; auto; destruct H; split; auto.
 Qed.
 
-Lemma Qb_do_call s t c : cont_closed s = true -> nl_started s = true ->
+Lemma Qb_do_call s t c : cont_closed s = true -> nl_started s = true -> nl_closed s = true ->
   Qb (cpubs (trace s)) (do_call s t c).
 Proof.
-  intros Hcl Hst. unfold do_call.
+  intros Hcl Hst Hnc. unfold do_call.
   assert (H0 : Qb (cpubs (trace s)) s) by (split; auto).
   destruct (find_task (tasks s) t); auto.
   assert (H1 : Qb (cpubs (trace s)) (set_trace s (EvCall t c :: trace s))) by (split; auto).
   destruct c; cbn [nl_started nl_closed cont_closed running_process send_command set_trace];
-    rewrite ?Hcl, ?Hst; try (apply Qb_acquire; auto; fail); try (split; simpl; auto; fail).
-  - destruct (nl_closed s); [split; simpl; auto|]. simpl. rewrite Hst. apply Qb_acquire. split; auto.
+    rewrite ?Hcl, ?Hst, ?Hnc; try (apply Qb_acquire; [discriminate | auto]; fail); try (split; simpl; auto; fail).
   - destruct (running_process s); split; simpl; auto.
   - destruct (send_command s); split; simpl; auto.
 Qed.
 
-Lemma Qb_do_step s t : cont_closed s = true -> Qb (cpubs (trace s)) (do_step s t).
+Lemma Qb_do_step s t : LkS s -> cont_closed s = true ->
+  (forall p, find_task (tasks s) t <> Some (CClose, p)) -> Qb (cpubs (trace s)) (do_step s t).
 Proof.
-  intros Hcl. assert (H0 : Qb (cpubs (trace s)) s) by (split; auto).
-  unfold do_step. destruct (find_task (tasks s) t) as [[c p]|]; auto.
-  destruct p; auto; try (apply Qb_enter; auto; fail); try (qs; fail).
-  - destruct c; try (qs; fail). apply Qb_acquire. qs.
+  intros HL Hcl Hno. assert (H0 : Qb (cpubs (trace s)) s) by (split; auto).
+  unfold do_step. destruct (find_task (tasks s) t) as [[c p]|] eqn:Ef; auto.
+  pose proof (lk_compat _ _ _ HL _ _ _ Ef) as Hc.
+  assert (Hnc : c <> CClose) by (intros ->; eapply Hno; eauto).
+  destruct p; auto; try (apply Qb_enter; auto; fail); try (qs; fail);
+    try (destruct c; simpl in Hc; try discriminate; congruence).
+  - destruct c; try (qs; fail). congruence.
   - destruct (started_ev s); auto; qs.
   - destruct c; auto; qs.
   - destruct c; auto; qs.
   - destruct (st_fsm s); try destruct (runt s); auto; qs.
   - destruct (runt s); auto; qs.
-  - destruct (run_finished s) as [[|]|]; auto. apply Qb_close_trigger; auto.
-  - destruct (runt s); auto; qs.
   - destruct (run_finished s) as [[|]|]; auto; qs.
 Qed.
 
-Lemma closed_step s l : FI s -> CI s -> cont_closed s = true ->
+Lemma closed_step s l : LkS s -> FI s -> CI s -> K s -> cont_closed s = true ->
   cpubs (trace (step s l)) = cpubs (trace s) /\ cont_closed (step s l) = true.
 Proof.
-  intros HF HC Hcl. unfold CI in HC. destruct (nl_started s) eqn:Ens.
+  intros HL HF HC (_ & _ & k3) Hcl. destruct (k3 Hcl) as (Hnc & Hno).
+  unfold CI in HC. destruct (nl_started s) eqn:Ens.
   - destruct l; simpl.
     + apply Qb_do_call; auto.
     + apply Qb_do_step; auto.
@@ -1101,10 +1357,11 @@ Theorem closed_forever a b c d ls ls' :
   cpubs (trace (run_labels s ls')) = cpubs (trace s) /\ cont_closed (run_labels s ls') = true.
 Proof.
   intros s Hcl. destruct (CI_reachable a b c d ls) as (HL & HF & HC). fold s in HL, HF, HC.
-  revert HL HF HC Hcl. generalize s. clear s.
-  induction ls' as [|l ls' IH]; intros s HL HF HC Hcl; simpl; auto.
-  destruct (closed_step s l HF HC Hcl) as (E1 & E2).
-  destruct (IH (step s l)) as (E3 & E4); auto using LkS_step, FI_step, CI_step.
+  pose proof (K_reachable a b c d ls) as HK. fold s in HK.
+  revert HL HF HC HK Hcl. generalize s. clear s.
+  induction ls' as [|l ls' IH]; intros s HL HF HC HK Hcl; simpl; auto.
+  destruct (closed_step s l HL HF HC HK Hcl) as (E1 & E2).
+  destruct (IH (step s l)) as (E3 & E4); auto using LkS_step, FI_step, CI_step, K_step.
   split; auto. unfold run_labels in *. congruence.
 Qed.
 
@@ -1158,7 +1415,10 @@ Lemma Ex_refl base : Ex base base. Proof. exists []. reflexivity. Qed.
 Lemma Ex_cons base tr e : Ex base tr -> Ex base (e :: tr).
 Proof. intros (new & ->). exists (e :: new). reflexivity. Qed.
 
-Ltac ex := cv_simpl; repeat apply Ex_cons; auto using Ex_refl.
+Lemma Ex_app base tr pre : Ex base tr -> Ex base (pre ++ tr).
+Proof. intros (new & ->). exists (pre ++ new). rewrite app_assoc. reflexivity. Qed.
+
+Ltac ex := cv_simpl; repeat first [apply Ex_cons | apply Ex_app]; auto using Ex_refl.
 
 Lemma Ex_refuse base s t c : Ex base (trace s) -> Ex base (trace (refuse s t c)).
 Proof. intros H. unfold refuse. destruct (is_cont c); [destruct (cont_closed (release s))|]; ex. Qed.
@@ -1271,7 +1531,8 @@ Qed.
 Theorem refused_appended s l t c :
   is_cont c = true -> In (EvRet t c RMachineError) (appended s (step s l)) ->
   ~ In (t, false) (cont_plugins (step s l)) /\
-  enabled_of (trace (step s l)) = Some (nonempty (cont_plugins (step s l))).
+  (cont_closed (step s l) = false ->
+   enabled_of (trace (step s l)) = Some (nonempty (cont_plugins (step s l)))).
 Proof.
   intros Hc Hin. destruct (step_trace_grows s l) as (new & En).
   rewrite (appended_new _ _ _ En) in Hin. apply in_rev in Hin. apply in_rets in Hin.
@@ -1283,20 +1544,67 @@ Proof.
     { rewrite Et. simpl. rewrite E1. reflexivity. }
     rewrite Hr in Hr2. apply app_inv_tail in Hr2. rewrite Hr2 in Hin. destruct Hin as [Heq | []].
     inversion Heq; subst t0 c0 r0.
-    destruct (refused_step s l t c Hc) as (A & B & _); auto. rewrite Et. simpl. rewrite E1. reflexivity.
+    destruct (refused_step s l t c Hc) as (A & B); [rewrite Et; simpl; rewrite E1; reflexivity|].
+    split; auto. intros Hcl. apply (B Hcl).
 Qed.
 
 (** ---- the statements used by Props/C16.v ---- *)
+Theorem flag_closed a b c d ls :
+  let s := run_labels (init_state a b c d) ls in
+  cont_closed s = true -> enabled_of (trace s) = Some false.
+Proof.
+  intros s Hcl. destruct (CI_reachable a b c d ls) as (_ & _ & HC). fold s in HC. unfold CI in HC.
+  destruct (nl_started s).
+  - apply (cj_off _ HC Hcl).
+  - destruct (PS_plugins _ HC) as (_ & E & _). congruence.
+Qed.
+
+Lemma cpubs_app x y : cpubs (x ++ y) = cpubs x ++ cpubs y.
+Proof.
+  induction x as [|e x IH]; simpl; auto. destruct e; auto. destruct p; auto. simpl. rewrite IH. reflexivity.
+Qed.
+
+Lemma in_cpubs b tr : In (EvPub (PCont b)) tr -> In b (cpubs tr).
+Proof.
+  induction tr as [|e tr IH]; simpl; auto. intros [-> | Hin]; [left; reflexivity|].
+  destruct e; auto. destruct p; auto. right. auto.
+Qed.
+
+(** a step from a state in which the continuous item is closed publishes nothing on the flag *)
+Theorem closed_step_silent a b c d ls l b0 :
+  let s := run_labels (init_state a b c d) ls in
+  cont_closed s = true -> ~ In (EvPub (PCont b0)) (appended s (step s l)).
+Proof.
+  intros s Hcl Hin. destruct (CI_reachable a b c d ls) as (HL & HF & HC). fold s in HL, HF, HC.
+  pose proof (K_reachable a b c d ls) as HK. fold s in HK.
+  destruct (closed_step s l HL HF HC HK Hcl) as (E & _).
+  destruct (step_trace_grows s l) as (new & En).
+  rewrite (appended_new _ _ _ En) in Hin. apply in_rev in Hin. apply in_cpubs in Hin.
+  rewrite En, cpubs_app in E.
+  assert (Hn : cpubs new = []).
+  { apply (f_equal (@length _)) in E. rewrite app_length in E. destruct (cpubs new); auto. simpl in E. lia. }
+  rewrite Hn in Hin. destruct Hin.
+Qed.
+
 Theorem refused_reachable a b c d ls l t c0 :
   let s := run_labels (init_state a b c d) ls in
   let s' := step s l in
   is_cont c0 = true -> In (EvRet t c0 RMachineError) (appended s s') ->
   ~ In (t, false) (cont_plugins s') /\
-  enabled_of (trace s') = Some (nonempty (cont_plugins s')) /\
-  (cont_plugins s' = [] -> enabled_of (trace s') = Some false).
+  (cont_closed s' = false -> enabled_of (trace s') = Some (nonempty (cont_plugins s'))) /\
+  (cont_closed s' = true -> enabled_of (trace s') = Some false) /\
+  (cont_plugins s' = [] -> enabled_of (trace s') = Some false) /\
+  (cont_closed s = true -> forall b0, ~ In (EvPub (PCont b0)) (appended s s')).
 Proof.
   intros s s' Hc Hin. destruct (refused_appended s l t c0 Hc Hin) as (A & B).
-  fold s' in A, B. repeat split; auto. intros E. rewrite B, E. reflexivity.
+  fold s' in A, B.
+  assert (Hoff : cont_closed s' = true -> enabled_of (trace s') = Some false).
+  { intros Hcl. assert (Es : s' = run_labels (init_state a b c d) (ls ++ [l])).
+    { unfold s', s, run_labels. rewrite fold_left_app. reflexivity. }
+    rewrite Es in *. apply flag_closed. exact Hcl. }
+  repeat split; auto.
+  - intros E. destruct (cont_closed s') eqn:Ecl; auto. rewrite (B eq_refl), E. reflexivity.
+  - intros Hcl b0. apply closed_step_silent. exact Hcl.
 Qed.
 
 Theorem plain_run_never_auto a b c d ls :
@@ -1812,4 +2120,26 @@ Proof.
   - pose proof (active_plugins _ HK Ha) as Hne. destruct (cont_plugins s); [congruence | reflexivity].
   - destruct (cont_plugins s) eqn:E; [reflexivity|]. exfalso. apply Ha. apply plugins_active; auto.
     rewrite E. discriminate.
+Qed.
+
+(** a continue request that was waiting for the lock when the object got closed:
+    once it is given the lock it is refused with MachineError and nothing is published *)
+Theorem refused_after_close a b c d ls t c0 :
+  let s := run_labels (init_state a b c d) ls in
+  cont_closed s = true -> is_cont c0 = true -> find_task (tasks s) t = Some (c0, Granted1) ->
+  let s' := step s (Step t) in
+  trace s' = EvRet t c0 RMachineError :: trace s /\
+  ~ In (t, false) (cont_plugins s') /\ find_task (tasks s') t = None /\ cont_closed s' = true.
+Proof.
+  intros s Hcl Hc Hf s'. destruct (CI_reachable a b c d ls) as (_ & _ & HC). fold s in HC. unfold CI in HC.
+  assert (Hfs : st_fsm s = Closed).
+  { destruct (nl_started s); [apply (cj_closed _ HC Hcl)|].
+    destruct (PS_plugins _ HC) as (_ & E & _). congruence. }
+  assert (Es : s' = finish_call (unregister_cont (release s) t) t c0 RMachineError).
+  { unfold s'. simpl. unfold do_step. rewrite Hf.
+    destruct c0; try discriminate; simpl; unfold enter_run; rewrite Hfs; unfold refuse; simpl;
+      rewrite rl_closed, Hcl; reflexivity. }
+  rewrite Es. simpl. rewrite rl_trace, rl_plugins, rl_closed. repeat split; auto.
+  - apply unreg_not_in.
+  - apply find_remove_eq.
 Qed.
